@@ -11,7 +11,7 @@ import (
 
 // C27 — repeated policer cycles restore replicas (second sentence only: what the replicator reports as success).
 func init() {
-	register(&Check{ID: "C27", Level: "other", Pkgs: []string{"./pkg/services/replicator", "./pkg/services/policer"}, Run: runC27})
+	register(&Check{ID: "C27", Level: "other", Pkgs: []string{"./pkg/services/object/placement", "./pkg/services/replicator", "./pkg/services/policer"}, Run: runC27})
 }
 
 func runC27(p *core.Prog, r *core.Report) {
@@ -81,6 +81,54 @@ func runC27(p *core.Prog, r *core.Report) {
 	r5 := r.Rule("C27.R5", "the policer's listing loop continues from the cursor the listing returned, from nil (wrap-around) or from a cursor created for that step: a cursor object created before the loop enters it only from outside (the listing advances the cursor it is given in place, so handing a kept one again jumps to wherever the listing has got to and the objects in between are never policed again)", 1)
 	policerCursorNeverReused(p, r, r5)
 	r.Explain += " (R5, a necessary condition of the first sentence) every cycle visits every stored object: in Policer.shardPolicyWorker the cursor passed to ListWithCursor is the one the previous call returned, nil after the end of the listing, or a cursor created on the spot; a cursor object created once before the loop never re-enters the loop variable from inside the loop (the engine's listing mutates the cursor it receives)."
+	// ---------------- R6 every node computes the same primaries for an object
+	r6 := r.Rule("C27.R6", "the per-object placement cache (shared by the PUT path and the policer of a node) stores the vectors in the object's own sorted order: wherever the placement service adds an entry, the entry's node sets are the result of the sort call made for this object — a node that caches the container's unsorted order disagrees with the others about the primaries, replicates to the wrong nodes and drops a true primary's copy every cycle", 2)
+	nAdd := 0
+	for _, fn := range p.FuncsIn("pkg/services/object/placement") {
+		adds := core.CallSites([]*ssa.Function{fn}, func(s core.Site) bool {
+			if !strings.Contains(s.Name, "golang-lru") || !strings.HasSuffix(s.Name, ").Add") {
+				return false
+			}
+			_, path := core.AccessPath(s.Call.Common().Args[0])
+			return len(path) > 0 && path[len(path)-1] == "objCache"
+		})
+		for _, ad := range adds {
+			nAdd++
+			ab := ad.Call.(ssa.Instruction).Block()
+			ok := false
+			for _, b := range fn.Blocks {
+				if b != ab && !b.Dominates(ab) {
+					continue
+				}
+				for _, in := range b.Instrs {
+					st, isSt := in.(*ssa.Store)
+					if !isSt {
+						continue
+					}
+					fa, isFA := st.Addr.(*ssa.FieldAddr)
+					if !isFA || !strings.HasSuffix(core.FieldAddrName(fa), ".NodeSets") {
+						continue
+					}
+					ex, isEx := st.Val.(*ssa.Extract)
+					if !isEx || ex.Index != 0 {
+						continue
+					}
+					if c, isC := ex.Tuple.(*ssa.Call); isC {
+						_, path := core.AccessPath(c.Call.Value)
+						if len(path) > 0 && path[len(path)-1] == "sortContainerNodesFunc" {
+							ok = true
+						}
+					}
+				}
+			}
+			r6.Check(ok, core.FuncName(fn)+"#cached-vectors", p.InstrPos(ad.Call), "the cached entry holds the sorted vectors",
+				"the entry added to the per-object placement cache does not get the result of the sort made for the object: later lookups (the policer's GetNodesForObject) see the container's unsorted order and take other nodes for the object's primaries than the rest of the network")
+		}
+	}
+	if nAdd == 0 {
+		r.Fatalf("C27.R6: the placement service no longer caches per-object placements")
+	}
+	r.Explain += " (R6) both places of the placement service that fill the per-object cache store the sort call's own result in the entry's node sets before adding it."
 	// ---------------- R4 a detected deficit is never answered with a task for zero copies
 	r4 := r.Rule("C27.R4", "every replication task the policer issues asks for at least one copy (provable from the guards that led to it): a deficit answered with a zero-copy task is a fixed point of the policer", 3)
 	nTask := 0
